@@ -40,7 +40,8 @@ Atoms ==
 \* base distributions and their supports
 Bases == { [name |-> "StandardNormal", support |-> "R", usesContext |-> FALSE],
            [name |-> "ConditionalDiagonalNormal", support |-> "R", usesContext |-> TRUE],
-           [name |-> "DiagonalNormal", support |-> "R", usesContext |-> FALSE] }
+           [name |-> "DiagonalNormal", support |-> "R", usesContext |-> FALSE],
+           [name |-> "MADEMoG", support |-> "R", usesContext |-> FALSE] }    \* autoregressive mixture of Gaussians
 
 VARIABLES prog, base, ctx, wellFormed, onto, terms
 vars == <<prog, base, ctx, wellFormed, onto, terms>>
